@@ -140,6 +140,6 @@ class NondeterministicFiniteAutomaton(EpsilonNFA):
                        s_from: Any,
                        symb_by: Any,
                        s_to: Any) -> int:
-        if symb_by == epsilon.Epsilon():
+        if to_symbol(symb_by) == epsilon.Epsilon():
             raise InvalidEpsilonTransition
         return super().add_transition(s_from, symb_by, s_to)
